@@ -172,6 +172,12 @@ class C19(Prop):
                         plant.append(o)                      # written by the process only
                 m["disk_needles"], m["plant"], m["erase"] = disk, plant, erase
                 present = sorted([o for o in disk if o not in erase] + plant)
+                if kind == "file_private" and flen >= ln and "dir" not in m and rng.chance(2, 3):
+                    # the file is deleted once mapped and another file takes the name the kernel then lists
+                    # (`<path> (deleted)`), with the needle where the mapping does not have it
+                    m["lookalike"] = True
+                    m["decoys"] = [o for o in [50, 4096 + 300, 8192 + 700, 12288 + 40]
+                                   if o + NL <= ln and all(abs(o - q) >= NL for q in disk + plant)]
             m["present"] = sorted(present)
             maps.append(m)
         configs = [{}]
@@ -298,6 +304,8 @@ class C19(Prop):
             maps = glist("(%d, %s, %s, %s)" % (m["pages"] * 4096, glist("%d" % x for x in m["present"]),
                                               glist("%d" % x for x in sorted(f)), glist("%d" % x for x in tail(m)))
                          for m, f in zip(case["mappings"], res["found"]))
+            if any(m.get("lookalike") for m in case["mappings"]):
+                ctx.count("e2e: backing file deleted, another file under the listed name")
             if any(is_tail(m) for m in case["mappings"]):
                 ctx.count("e2e: needle written beyond the end of a shared file")
             terms.append("C19e_case %s %d %s" % (prm, out["needle_len"], maps))
